@@ -439,6 +439,87 @@ def ob_mu(domain):
     return verify(body, check_side=False, timeout_ms=120000)
 
 
+@obligation("su_mimo/pathloss_and_antennas", params=[{"switched": sw} for sw in (False, True)], timeout=300,
+            desc="SuMimoChannel(2 antennas) with a symbolic path loss p in [0,1]: every tap is a 2 x 2 matrix of fading samples; the output "
+                 "of antenna o is sqrt(p) * sum_i conv(x_i, g) with the UNSCALED taps of link (o, i) (switched direction: (i, o)), the "
+                 "reported response is sqrt(p) * the unscaled taps, two output rows of length input + memory")
+def ob_su_mimo(switched):
+    def body(c, it):
+        from pyphysim.channels import singleuser
+        delays = [0, 2]
+        prof = _profile(delays)
+        gen = SymFading(c)
+        su = it.call(singleuser.SuMimoChannel, [2, gen, prof])
+        goals = []
+        p = c.var("p", "real")
+        c.assume((p >= 0) & (p <= 1))
+        it.call(it.getattr(su, "set_pathloss"), [p])
+        if switched:
+            it.setattr(su, "switched_direction", True)
+        N = 3
+        x = _sig(c, "x", 2, N)
+        out = it.call(it.getattr(su, "corrupt_data"), [x])
+        ir = it.call(it.getattr(su, "get_last_impulse_response"), [])
+        taps = it.getattr(ir, "tap_values_sparse")
+        raw = it.getattr(it.call(it.getattr(it.getattr(su, "_tdlchannel"), "get_last_impulse_response"), []), "tap_values_sparse")
+        s_ = p.sqrt()
+        goals.append(Goal("shapes: response (taps, 2, 2, N), output (2, N + memory)", np.shape(taps) == (2, 2, 2, N) and np.shape(out) == (2, N + 2)))
+        if not goals[-1].cond:
+            return goals
+        goals.append(Goal("reported response == sqrt(p) * unscaled taps", _meq(taps, raw * s_)))
+        for o in range(2):
+            spec = np.zeros(N + 2, dtype=object)
+            for i_ in range(2):
+                g = raw[:, i_, o, :] if switched else raw[:, o, i_, :]
+                spec = spec + _conv_spec(x[i_], g, delays, N)
+            goals.append(Goal("output antenna %d == sqrt(p) * superposition of the per-link convolutions" % o, _meq(out[o], spec * s_)))
+        return goals
+    return verify(body, check_side=False, timeout_ms=120000)
+
+
+@obligation("mu_mimo/per_link_superposition", timeout=300,
+            desc="MuMimoChannel (2 receivers x 2 transmitters, 1 receive and 2 transmit antennas per link, symbolic path-loss matrix): every "
+                 "link is a 1 x 2 MIMO link; out[rx] == sum_tx (link_{rx,tx} applied to the 2 streams of transmitter tx) with each link's own "
+                 "reported (path-loss scaled) response; each output has one row")
+def ob_mu_mimo():
+    def body(c, it):
+        from pyphysim.channels import multiuser
+        delays = [0, 1]
+        prof = _profile(delays)
+        gen = SymFading(c)
+        mu = it.call(multiuser.MuMimoChannel, [2, 1, 2, gen, prof])
+        PL = np.empty((2, 2), dtype=object)
+        for i in range(2):
+            for j in range(2):
+                PL[i, j] = c.var("pl%d%d" % (i, j), "real")
+                c.assume((PL[i, j] >= 0) & (PL[i, j] <= 1))
+        it.call(it.getattr(mu, "set_pathloss"), [PL])
+        N = 3
+        xs = np.empty(2, dtype=object)
+        for tx in range(2):
+            xs[tx] = _sig(c, "x%d" % tx, 2, N)
+        out = it.call(it.getattr(mu, "corrupt_data"), [xs])
+        goals = [Goal("one output per receiver", np.shape(out) == (2,))]
+        if not goals[0].cond:
+            return goals
+        for rx in range(2):
+            spec = np.zeros(N + 1, dtype=object)
+            for tx in range(2):
+                ir = it.call(it.getattr(mu, "get_last_impulse_response"), [rx, tx])
+                taps = it.getattr(ir, "tap_values_sparse")            # (taps, 1, 2, N), already scaled by sqrt(PL)
+                if np.shape(taps) != (2, 1, 2, N):
+                    return goals + [Goal("link (%d,%d) response shape (taps, 1, 2, N)" % (rx, tx), False)]
+                for i_ in range(2):
+                    spec = spec + _conv_spec(xs[tx][i_], taps[:, 0, i_, :], delays, N)
+            o = np.asarray(out[rx], dtype=object)
+            goals.append(Goal("receiver %d: one row of length input + memory" % rx, o.shape == (1, N + 1)))
+            if o.shape == (1, N + 1):
+                goals.append(Goal("receiver %d == superposition over transmitters and their antennas of the links' reported responses" % rx,
+                                  _meq(o[0], spec)))
+        return goals
+    return verify(body, check_side=False, timeout_ms=120000)
+
+
 @obligation("profile/discretisation", params=[{"case": k} for k in ("collide", "distinct", "unsorted")],
             desc="get_discretize_profile(Ts) with symbolic positive tap powers: delays are the unique sorted round(tau/Ts); colliding taps are "
                  "merged by adding their powers; the discretised linear powers sum to one and keep their proportions")
